@@ -29,6 +29,7 @@ pub struct Case {
 }
 #[derive(Default)]
 pub struct Stats {
+    nontrivial: Vec<(u64, bool, u8)>,
     k_total: u64,
     faults: u64,
     after_begin: u64,
@@ -189,9 +190,11 @@ async fn run_cfg<TC: Tcfg>(case: &Case, st: &mut Stats) -> R {
             let commit_pos = kinds.iter().position(|x| *x == OpKind::BatchSetCommit).unwrap_or(usize::MAX);
             if (k as usize) < commit_pos && kinds.get(k as usize).map(|x| matches!(x, OpKind::Get | OpKind::BatchGet)).unwrap_or(false) {
                 st.after_begin += 1;
+                st.nontrivial.push((k, outage, TC::CFG as u8));
             }
             if k as usize == commit_pos {
                 st.commit_faults += 1;
+                st.nontrivial.push((k, outage, TC::CFG as u8));
             }
             ensure!(r.is_err(), "publish-ok-despite-fault", "{what}: publish returned Ok({:?}) although the storage layer failed", r.as_ref().ok().map(|e| e.0));
             quiesce(&inst.vdb).await;
@@ -233,8 +236,16 @@ pub fn check(case: &Case, ctx: &mut Ctx) -> R {
     ctx.count("faults_in_reads_after_begin_transaction", st.after_begin);
     ctx.count("faults_in_commit_write", st.commit_faults);
     ctx.class(&format!("{:?}/{:?}", case.mgr, case.par));
+    // every injected fault is one execution; distinct non-trivial = distinct (case, configuration, fault position, fault kind)
+    // with the fault in a read after begin_transaction or in the commit write
+    if ctx.counting {
+        ctx.evals += st.faults.saturating_sub(1);
+    }
+    let cfp = fp_json(case);
+    for x in &st.nontrivial {
+        ctx.nontrivial(fp(&(cfp, x)));
+    }
     if st.after_begin + st.commit_faults > 0 {
-        ctx.nontrivial(fp_json(case));
         ctx.sample(case);
     }
     r
@@ -266,7 +277,7 @@ pub fn run(eng: &mut Engine) {
     eng.assume("the database recovers as soon as the failed call has returned; spawned insertion tasks are given time to finish (quiescence) before the database is inspected");
     eng.prop_part(
         "faults",
-        "generated short histories (prefix of 0-3/0-5 publishes + a state-changing target publish), manager in {no cache, cold cache, cache warmed by the previous publish}, insertion/preload parallelism in {disabled, default, static 2}; the target publish's storage operation count K is measured, then EVERY k<K is failed (single fault and outage-until-return) on a freshly restored copy; oracle: Err returned, no transaction open, same instance and a fresh instance serve the model's previous state, database snapshot unchanged, retry reaches the model's next state; non-trivial = case with a fault in a read after begin_transaction or in the commit write; distinct by case",
+        "generated short histories (prefix of 0-3/0-5 publishes + a state-changing target publish), manager in {no cache, cold cache, cache warmed by the previous publish}, insertion/preload parallelism in {disabled, default, static 2}; the target publish's storage operation count K is measured, then EVERY k<K is failed (single fault and outage-until-return) on a freshly restored copy; oracle: Err returned, no transaction open, same instance and a fresh instance serve the model's previous state, database snapshot unchanged, retry reaches the model's next state; evaluations = fault runs; non-trivial = fault in a read after begin_transaction or in the commit write, distinct by (case, configuration, fault position, single/outage)",
         eng.tier.pick(400, 6000),
         move || strategy(thorough),
         check,
